@@ -67,3 +67,39 @@ func lemmaCTStatesStep(s *CTStates, touched, last uint32, op int) (uint32, uint3
 }
 
 func lemmaCTStatesInit() *CTStates { return NewCTStates() }
+
+// C15: unpacking any 32-bit OXM header word and packing the result gives the word back.
+func lemmaOXMHeaderUnpackPack(w uint32) uint32 {
+	b := []byte{byte(w >> 24), byte(w >> 16), byte(w >> 8), byte(w)}
+	m := new(MatchField)
+	if err := m.UnmarshalHeader(b); err != nil {
+		return ^w
+	}
+	return m.MarshalHeader()
+}
+
+// C15: packing any header (field number within its 7 bits) and unpacking the word gives the header back.
+func lemmaOXMHeaderPackUnpack(class uint16, field uint8, hasMask bool, length uint8) (uint16, uint8, bool, uint8, error) {
+	m := &MatchField{Class: class, Field: field, HasMask: hasMask, Length: length}
+	w := m.MarshalHeader()
+	b := []byte{byte(w >> 24), byte(w >> 16), byte(w >> 8), byte(w)}
+	r := new(MatchField)
+	err := r.UnmarshalHeader(b)
+	return r.Class, r.Field, r.HasMask, r.Length, err
+}
+
+// C15: two lookups return independent values: modifying the first result does not change what a second
+// lookup of the same name returns (verified against the lookup contract: results are fresh).
+func lemmaOXMLookupIndependent(name string, hasMask bool) bool {
+	a, err := FindFieldHeaderByName(name, hasMask)
+	if err != nil {
+		return true
+	}
+	c, f, l := a.Class, a.Field, a.Length
+	a.Class, a.Field, a.Length, a.HasMask = ^c, ^f, ^l, !hasMask
+	b, err := FindFieldHeaderByName(name, hasMask)
+	if err != nil {
+		return false
+	}
+	return b != a && b.Class == c && b.Field == f && b.Length == l && b.HasMask == hasMask
+}
